@@ -725,6 +725,8 @@ class Tr:
                 return binds, '(is_pow2 %s)' % a, 'bool'
             if name == 'get' and not atoms:
                 return binds, a, 'Z'
+        if t == 'option' and name == 'unwrap_or' and len(atoms) == 1:
+            return binds, '(match %s with Some uw_ => uw_ | None => %s end)' % (a, atoms[0]), 'Z'
         self.err('unsupported method `.%s` on %s' % (name, t))
 
     # --- monadic expression forms: returns (('pure'|'m', term), type)
@@ -1119,10 +1121,22 @@ def main():
         ('LibArith', 'src/lib.rs',
          ['up_align_usize_unchecked', 'down_align_usize', 'bump_down', 'min_non_zero_cap', 'align_pos'], ()),
     ]
+    # the capacity-growth decisions of the vector types, cut out and rewritten by tools/capsites.py
+    cap_rs = os.path.join(os.path.dirname(os.path.dirname(os.path.abspath(__file__))), '.cache', 'capsites.rs')
+    import subprocess
+    p = subprocess.run([sys.executable, os.path.join(os.path.dirname(os.path.abspath(__file__)), 'capsites.py'), repo, cap_rs],
+                       stdout=subprocess.PIPE, stderr=subprocess.STDOUT, text=True)
+    print(p.stdout.strip())
     rc = 0
+    if p.returncode != 0:
+        rc = 2
+        # leave a stub that fails the proof build of the dependants instead of a stale model
+        write_if_changed(os.path.join(outdir, 'CapSites.v'), '(* capsites.py failed: %s *)\nFrom BS Require Import Word.\nDefinition capsites_translation_failed : True := I.\n' % p.stdout.strip().replace('*)', '* )'))
+    else:
+        units.append(('CapSites', cap_rs, None, ()))
     for name, path, only, skip in units:
         try:
-            u = Unit(name, os.path.join(repo, path), only, skip)
+            u = Unit(name, path if os.path.isabs(path) else os.path.join(repo, path), only, skip)
             text = u.emit()
             ch = write_if_changed(os.path.join(outdir, name + '.v'), text)
             print('rs2v: %s.v %s (%d functions)' % (name, 'rewritten' if ch else 'unchanged', len(u.parsed)))
